@@ -103,13 +103,20 @@ def check(repo, res, tier):
     X = SymArr.symbols("X", (n_t, total))
     chain = ("_getTargetParamSensIndex", "_getTargetParamIndex", "_getTargetStateSensIndex", "_getTargetStateIndex", "sens_to_grad")
     summ, types = summaries(bl, repo, chain)
-    fP = bl.methods["_sensToGradWithoutIndex"]
-    fS = bl.methods["_sensToGradIVWithoutIndex"]
+    fP = bl.methods.get("_sensToGradWithoutIndex")
+    fS = bl.methods.get("_sensToGradIVWithoutIndex")
+    if fP is None or fS is None or fP.params[1:3] != ["sens", "diffLoss"] or fS.params[1:3] != ["sens", "diffLoss"]:
+        # private helpers: when they are gone or reorganised their old contract says nothing about the property; the gradient is
+        # decided end to end, through sensitivity / sensitivityIV, by R-SLOT below
+        res.holds("R-GRADSEL", bl.methods["sensitivity"], "name-order-cases",
+                  "the private selection helpers (_sensToGradWithoutIndex / _sensToGradIVWithoutIndex) no longer have the interface this refinement was written for; "
+                  "the gradient is decided through the public sensitivity / sensitivityIV (R-SLOT)")
+        fP = fS = None
     n_cases = 0
     bad_p, bad_s, und = [], [], []
     state_sets = [["I"], ["R"], ["S", "I"], ["I", "S"], ["R", "S"], ["S", "I", "R"], ["R", "I", "S"]]
     param_sets = [None, ["a"], ["c"], ["a", "b"], ["b", "a"], ["c", "a"], ["a", "b", "c"], ["c", "b", "a"], ["b", "c", "a"]]
-    for sn in state_sets:
+    for sn in (state_sets if fP is not None else []):
         st_idx = [STATES.index(s) for s in sn]
         D = SymArr.symbols("D", (n_t, len(sn))) if len(sn) > 1 else SymArr.symbols("D", (n_t,))
         for tp in param_sets:
@@ -142,12 +149,15 @@ def check(repo, res, tier):
                 bad_s.append("observed %s, target_state %s -> %s" % (sn, ts, ("component %d uses %r, expected %r" % (k, out.flat[k], want.flat[k])) if k is not None else (out if kind == "raise" else "wrong length")))
     if und:
         res.undecided("R-GRADSEL", fP, "abstract-execution", "outside the modelled subset: %s" % und[0])
-    res.floor("name-order cases interpreted", n_cases, 100)
-    res.check(not bad_p, "R-GRADSEL", fP, "parameter-gradient(%d orders)" % (len(state_sets) * len(param_sets)),
+    if fP is not None:
+        res.floor("name-order cases interpreted", n_cases, 100)
+    if fP is not None:
+      res.check(not bad_p, "R-GRADSEL", fP, "parameter-gradient(%d orders)" % (len(state_sets) * len(param_sets)),
               "for every order of observed states and target parameters, gradient component o is the chain rule over free parameter o's own sensitivity columns",
               "the parameter gradient is assembled from the wrong sensitivity columns (%d of %d cases), e.g. %s" % (len(bad_p), len(state_sets) * len(param_sets), "; ".join(bad_p[:2])),
               node=fP.node)
-    res.check(not bad_s, "R-GRADSEL", fS, "initial-value-gradient(%d orders)" % (len(state_sets) * 6),
+    if fS is not None:
+      res.check(not bad_s, "R-GRADSEL", fS, "initial-value-gradient(%d orders)" % (len(state_sets) * 6),
               "for every order of observed states and target states, component o uses free initial value o's own sensitivity columns",
               "the initial-value gradient is wrong (%d of %d cases), e.g. %s" % (len(bad_s), len(state_sets) * 6, "; ".join(bad_s[:2])), node=fS.node)
 
